@@ -205,8 +205,9 @@ def correspondence(run, runs, args, stats):
 
         def tolk(k):
             # last-bit differences grow along an iteration (non-convex problems, tens of line searches): the tolerance on the
-            # k-th distinct state doubles every 16 states, from 1e-7 up to 1e-4
-            return min(1e-4, tol * 2.0 ** (k / 16.0))
+            # k-th distinct state doubles every 8 states, from 1e-7 up to 1e-3 (the Rosenbrock valley is that sensitive; runs
+            # that differ in a decision differ in their counts or grossly in their states)
+            return min(1e-3, tol * 2.0 ** (k / 8.0))
         # consecutive evaluations of the same state (to the tolerance) are compared as one: a step that lands exactly on a bound
         # in one arithmetic and one ulp inside it in the other only adds such repetitions (the variable is placed on the bound
         # and the cost evaluated again at what is, to the tolerance, the same state), after which the two runs coincide again
@@ -225,10 +226,11 @@ def correspondence(run, runs, args, stats):
             return False, n, "%d distinct states passed to call-backs, model %d" % (len(ie), len(me)), margin
         same_reps = (len(r["E"]) - len(ie)) == (len(mev) - len(me))
         tl = tolk(n)
-        if {r["status"], mst} == {0, 3} and all(cl(u, v, tl) for u, v in zip(r["x"], mx)) and cl(r["rep"], mc, 1e-12):
-            # both runs visit the same states and end at the same point with the same cost; one declares SUCCESS where the
-            # other, one ulp of the cost away from satisfying the sufficient-decrease test, keeps bisecting until its line
-            # search gives up: a tie at the level of the last bit of the cost function
+        if r["status"] in (0, 3) and mst in (0, 3) and (r["status"], r["it"], r["samples"]) != (mst, mit, mns) \
+           and all(cl(u, v, tl) for u, v in zip(r["x"], mx)) and cl(r["rep"], mc, 1e-12):
+            # both runs visit the same states and end at the same point with the same cost (to 1e-12); one stops (SUCCESS, or
+            # gives up) where the other, one ulp of the cost away from the other side of a sufficient-decrease / cost-reduction
+            # test, goes on for a few more trials without getting anywhere: a tie at the level of the last bit of the cost
             return False, n, "stall at rounding level: implementation %s, model %s at the same point" % (STATUS.get(r["status"]), STATUS.get(mst)), 0.0
         if (r["status"], r["it"]) != (mst, mit) or (same_reps and r["samples"] != mns):
             return False, n, "status/iterations/samples: implementation %s/%d/%d, model %s/%d/%d" % (STATUS.get(r["status"]), r["it"], r["samples"], STATUS.get(mst, mst), mit, mns), margin
